@@ -1,3 +1,4 @@
+from mindsdb_sql.exceptions import ParsingException
 from mindsdb_sql.parser.ast.base import ASTNode
 from mindsdb_sql.parser.utils import indent
 from mindsdb_sql.parser.ast.create import TableColumn
@@ -37,6 +38,8 @@ class Insert(ASTNode):
         elif isinstance(col, Identifier):
             return TableColumn(col.parts[0])
         elif isinstance(col, Constant):
+            if not isinstance(col.value, str):
+                raise ParsingException(f'Column name expected, got: {col.to_string()}')
             return TableColumn(col.value)
         return TableColumn(str(col))
 
